@@ -23,6 +23,11 @@
 (*   RelayBack      transit maps the stream id back, payload unchanged     *)
 (*   InitDerive     ingress: K = KDF(DH, own rid, own ipub, ACK's rpub)    *)
 (*   SendData / RelayData / RecvData   Sealed(K, c) frames hop by hop      *)
+(* Life cycle (Lifecycle = TRUE): IngressOpenTimeout / LateAck (the ingress *)
+(* gave up waiting; it must not send data on that tunnel, the late ACK is  *)
+(* dropped), IngressClose / ExitClose racing with the exit's return path   *)
+(* ExitRead ; ExitSeal (bytes read before the close are still sealed under *)
+(* the tunnel key, never under a wiped key).                               *)
 (* Dishonest peers (Adversary = TRUE): a puppet ingress sends an OPEN      *)
 (* whose key is degenerate, a puppet exit answers with a degenerate key;   *)
 (* the honest end must refuse (no key).                                    *)
@@ -43,6 +48,7 @@ CONSTANTS NT,         \* number of transit agents (0, 1 or 2)
           Classes,    \* degenerate key classes used by dishonest peers in the state machine
           Adversary,  \* TRUE: puppet ingress / puppet exit enabled
           EphPool,    \* {} = every ephemeral key is fresh; otherwise private keys are drawn from this pool
+          Lifecycle,  \* TRUE: open timeout / late ACK, close racing with return data (ExitRead, ExitSeal) enabled
           Dev,        \* enabled deviations
           EmitVec     \* TRUE: print the E4 vectors (VEC / VECD records) in the initial state
 
@@ -52,10 +58,10 @@ AllKinds == {"tcp-ip", "tcp-domain", "forward", "udp", "icmp", "shell", "shell-t
 DatagramKinds == {"udp", "icmp"}
 ZeroPrecheckKinds == {"shell", "shell-tty", "file-upload", "file-download"}
 DevNames == {"DevSwapPubOrder", "DevUsePerHopStreamId", "DevNoDegenerateCheck", "DevPlaintextFallback",
-             "DevTransitDerives", "DevSaltOmitsRid"}
+             "DevTransitDerives", "DevSaltOmitsRid", "DevDataBeforeKey", "DevSealAfterKeyWipe"}
 
 ASSUME /\ NT \in 0..2 /\ Kinds1 \subseteq AllKinds /\ Kinds2 \subseteq AllKinds
-       /\ Dev \subseteq DevNames /\ Adversary \in BOOLEAN /\ EmitVec \in BOOLEAN
+       /\ Dev \subseteq DevNames /\ Adversary \in BOOLEAN /\ EmitVec \in BOOLEAN /\ Lifecycle \in BOOLEAN
 
 Path == <<"I">> \o [i \in 1..NT |-> "T" \o ToString(i)] \o <<"X">>
 Hops == 1..(NT + 1)          \* link h connects Path[h] and Path[h+1]
@@ -75,6 +81,7 @@ DH(x, P) == IF IsDeg(P) THEN ZSecret ELSE [dh |-> {x, P.pub}]
 KDF(s, r, ip, rp) ==
   IF "DevSaltOmitsRid" \in Dev THEN [s |-> s, rid |-> NoVal, ip |-> ip, rp |-> rp]
                                ELSE [s |-> s, rid |-> r, ip |-> ip, rp |-> rp]
+WipedKey == [wiped |-> "all-zero key"]    \* what SessionKey.Zero() leaves behind: a usable, publicly known key
 Sealed(K, c) == [k |-> K, c |-> c]
 Plain(c) == [plain |-> c]
 IsSealedUnder(b, K) == "k" \in DOMAIN b /\ b.k = K
@@ -89,8 +96,8 @@ VARIABLES tun,       \* per tunnel: both endpoints' view (see NoTunnel)
 vars == <<tun, links, relay, usedSid, knows, derivs>>
 
 NoTunnel == [kind |-> "none", mode |-> "none",
-             ist |-> "idle",     \* ingress: idle, wait, open, plain, failed
-             xst |-> "none",     \* exit:    none, derived, open, plain, refused, failed
+             ist |-> "idle",     \* ingress: idle, wait, open, plain, failed, timedout, closed
+             xst |-> "none",     \* exit:    none, derived, open, plain, refused, failed, closed
              rid |-> NoVal,      \* request id chosen by the ingress
              ik |-> NoVal,       \* ingress' ephemeral private key        (Id)
              rk |-> NoVal,       \* exit's ephemeral private key          (Id)
@@ -100,7 +107,9 @@ NoTunnel == [kind |-> "none", mode |-> "none",
              xipub |-> NoVal,
              ikey |-> NoVal,     \* session key held by the ingress
              xkey |-> NoVal,     \* session key held by the exit
-             sentI |-> 0, sentX |-> 0]
+             sentI |-> 0, sentX |-> 0,
+             pendX |-> 0,        \* bytes the exit has read from the destination and not sealed yet
+             earlyI |-> FALSE]   \* ghost: the ingress emitted application data while it held no key
 
 Frame(typ, dir, sid, t, rid, pub, body) ==
   [typ |-> typ, dir |-> dir, sid |-> sid, t |-> t, rid |-> rid, pub |-> pub, body |-> body]
@@ -154,7 +163,7 @@ RelayBack(p, f) ==
 
 RelayData(p, f) ==
   /\ p \in TransitPos
-  /\ \/ /\ f \in links[p - 1] /\ f.typ = "DATA" /\ f.dir = "fwd"
+  /\ \/ /\ f \in links[p - 1] /\ f.typ \in {"DATA", "CLOSE"} /\ f.dir = "fwd"
         /\ \E e \in relay[p] : e.up = f.sid /\ e.t = f.t
               /\ links' = [links EXCEPT ![p - 1] = @ \ {f}, ![p] = @ \cup {[f EXCEPT !.sid = e.down]}]
      \/ /\ f \in links[p] /\ f.typ = "DATA" /\ f.dir = "bwd"
@@ -270,6 +279,61 @@ InitFail(t, f) ==
   /\ links' = [links EXCEPT ![1] = @ \ {f}]
   /\ UNCHANGED <<relay, usedSid, knows, derivs>>
 
+(* ---- open timeout, late ACK, close ----------------------------------------*)
+\* the ingress stops waiting for the answer (deadline, cancellation); it holds no key for this tunnel
+IngressOpenTimeout(t) ==
+  /\ tun[t].ist = "wait" /\ tun[t].mode = "honest"
+  /\ tun' = [tun EXCEPT ![t] = [@ EXCEPT !.ist = "timedout"]]
+  /\ UNCHANGED <<links, relay, usedSid, knows, derivs>>
+
+\* the ACK of an abandoned open arrives: dropped, no key
+LateAck(t, f) ==
+  /\ f \in links[1] /\ f.dir = "bwd" /\ f.typ = "ACK" /\ f.t = t
+  /\ tun[t].ist = "timedout" /\ tun[t].isid = Id(f.sid)
+  /\ IF "DevDataBeforeKey" \in Dev /\ ~IsDeg(f.pub)
+       THEN LET key == KDF(DH(tun[t].ik.id, f.pub), tun[t].rid, Pub(tun[t].ik.id), f.pub) IN   \* DEVIATION: the abandoned association is revived
+              /\ tun' = [tun EXCEPT ![t] = [@ EXCEPT !.ist = "open", !.ikey = key]]
+              /\ knows' = [knows EXCEPT !["I"] = @ \cup {key}]
+              /\ derivs' = derivs \cup {[agent |-> "I", t |-> t, role |-> "init", key |-> key]}
+       ELSE UNCHANGED <<tun, knows, derivs>>
+  /\ links' = [links EXCEPT ![1] = @ \ {f}]
+  /\ UNCHANGED <<relay, usedSid>>
+
+\* DEVIATION: application data leaves the ingress on a tunnel whose key exchange has not completed
+EarlyData(t, c) ==
+  /\ "DevDataBeforeKey" \in Dev
+  /\ tun[t].ist \in {"wait", "timedout"} /\ tun[t].mode = "honest" /\ tun[t].sentI < MaxData
+  /\ links' = [links EXCEPT ![1] = @ \cup {Frame("DATA", "fwd", tun[t].isid.id, t, NoVal, NoVal, Plain(c))}]
+  /\ tun' = [tun EXCEPT ![t] = [@ EXCEPT !.sentI = @ + 1, !.earlyI = TRUE]]
+  /\ UNCHANGED <<relay, usedSid, knows, derivs>>
+
+\* the ingress closes / resets the tunnel: CLOSE travels to the exit
+IngressClose(t) ==
+  /\ tun[t].ist = "open" /\ tun[t].mode = "honest"
+  /\ tun' = [tun EXCEPT ![t] = [@ EXCEPT !.ist = "closed"]]
+  /\ links' = [links EXCEPT ![1] = @ \cup {Frame("CLOSE", "fwd", tun[t].isid.id, t, NoVal, NoVal, NoVal)}]
+  /\ UNCHANGED <<relay, usedSid, knows, derivs>>
+
+\* the exit handles the CLOSE: connection torn down (the session key object may be wiped from here on)
+ExitClose(f) ==
+  /\ f \in links[LastHop] /\ f.typ = "CLOSE"
+  /\ tun' = [tun EXCEPT ![f.t] = [@ EXCEPT !.xst = IF @ = "open" THEN "closed" ELSE @]]
+  /\ links' = [links EXCEPT ![LastHop] = @ \ {f}]
+  /\ UNCHANGED <<relay, usedSid, knows, derivs>>
+
+\* return path of the exit in two steps, as in readLoop: Read from the destination, then Encrypt + send
+ExitRead(t) ==
+  /\ tun[t].xst = "open" /\ tun[t].mode # "badX" /\ tun[t].pendX = 0 /\ tun[t].sentX < MaxData
+  /\ tun' = [tun EXCEPT ![t] = [@ EXCEPT !.pendX = 1]]
+  /\ UNCHANGED <<links, relay, usedSid, knows, derivs>>
+
+ExitSeal(t, c) ==
+  /\ tun[t].pendX = 1 /\ tun[t].xst \in {"open", "closed"}
+  /\ LET K == IF tun[t].xst = "closed" /\ "DevSealAfterKeyWipe" \in Dev THEN WipedKey ELSE tun[t].xkey IN
+       links' = [links EXCEPT ![LastHop] = @ \cup {Frame("DATA", "bwd", tun[t].xsid.id, t, NoVal, NoVal, Sealed(K, c))}]
+  /\ tun' = [tun EXCEPT ![t] = [@ EXCEPT !.pendX = 0, !.sentX = @ + 1]]
+  /\ UNCHANGED <<relay, usedSid, knows, derivs>>
+
 (* ---- data ----------------------------------------------------------------*)
 \* c identifies the application payload / its ciphertext
 SendData(t, side, c) ==
@@ -357,7 +421,13 @@ Next ==
         InitDerive(t, f) \/ InitRefuse(t, f) \/ InitNoKey(t, f) \/ InitFail(t, f)
   \/ \E f \in links[1] : RecvData("I", f)
   \/ \E t \in Tunnels : \/ SendData(t, "I", <<t, "I", tun[t].sentI>>)
-                        \/ SendData(t, "X", <<t, "X", tun[t].sentX>>)
+                        \/ ~Lifecycle /\ SendData(t, "X", <<t, "X", tun[t].sentX>>)
+                        \/ EarlyData(t, <<t, "I", tun[t].sentI>>)
+  \/ Lifecycle /\ \E t \in Tunnels :
+        \/ IngressOpenTimeout(t) \/ IngressClose(t)
+        \/ ExitRead(t) \/ ExitSeal(t, <<t, "X", tun[t].sentX>>)
+        \/ \E f \in links[1] : LateAck(t, f)
+  \/ Lifecycle /\ \E f \in links[LastHop] : ExitClose(f)
 
 Spec == Init /\ [][Next]_vars
 
@@ -388,6 +458,9 @@ TransitSeesOnlyCiphertext ==
   \A h \in Hops : \A f \in links[h] :
      f.typ = "DATA" => \E K \in TunnelKeys(f.t) : IsSealedUnder(f.body, K)
 
+\* C04: an ingress never emits application data for a tunnel before it holds the tunnel key
+NoDataBeforeKey == \A t \in Tunnels : ~tun[t].earlyI
+
 \* C04: only the two endpoints ever derive / hold a tunnel key, each once
 TransitNeverHoldsKey ==
   /\ \A a \in Transits : knows[a] = {}
@@ -395,9 +468,9 @@ TransitNeverHoldsKey ==
   /\ \A t \in Tunnels : Cardinality({d \in derivs : d.t = t}) <= 2
 
 TypeOK ==
-  /\ \A t \in Tunnels : tun[t].ist \in {"idle", "wait", "open", "plain", "failed"}
-                        /\ tun[t].xst \in {"none", "derived", "open", "plain", "refused", "failed"}
-  /\ \A h \in Hops : \A f \in links[h] : f.typ \in {"OPEN", "ACK", "ERR", "DATA"} /\ f.dir \in {"fwd", "bwd"}
+  /\ \A t \in Tunnels : tun[t].ist \in {"idle", "wait", "open", "plain", "failed", "timedout", "closed"}
+                        /\ tun[t].xst \in {"none", "derived", "open", "plain", "refused", "failed", "closed"}
+  /\ \A h \in Hops : \A f \in links[h] : f.typ \in {"OPEN", "ACK", "ERR", "DATA", "CLOSE"} /\ f.dir \in {"fwd", "bwd"}
 
 \* relays never alter the key-exchange payload: an OPEN / ACK in flight carries the endpoint's own values
 PayloadIntact ==
